@@ -507,7 +507,9 @@ fn dense_materialise(c: &DenseCase) -> (Case, Mat) {
         x = crate::engine::splitmix64(x);
         x
     };
-    let genome: Vec<u8> = (0..c.genome_len).map(|_| model::BASES[(next() >> 7) as usize % 4]).collect();
+    // (the cases whose first file holds a single read get a genome five times as long: 60000-200000 k-mers in file 2)
+    let genome_len = if c.seed % 3 == 0 { c.genome_len * 5 } else { c.genome_len };
+    let genome: Vec<u8> = (0..genome_len).map(|_| model::BASES[(next() >> 7) as usize % 4]).collect();
     // reads tile the genome so that every window lies in exactly one read; every read occurs
     // min_count times, except every seventh, which occurs once less (its k-mers stay below the count)
     let step = c.read_len - (c.k - 1);
